@@ -36,6 +36,10 @@ Record fn := mkFn {
   f_setsig : option (nat * nat)     (* the function installs handler h for signal s *)
 }.
 
+(* a start-up hook somebody registered with reactor.callWhenRunning (an 'after startup' trigger) BEFORE run() was
+   entered: it calls reactor.stop() directly, schedules a delayed call that does nothing, or does nothing *)
+Inductive hook := HStop | HSched (d : time) | HNoop.
+
 (* what a reactor callback does *)
 Inductive action :=
 | ATimeout                          (* Spinner._timed_out *)
@@ -43,7 +47,8 @@ Inductive action :=
 | AStopReq                          (* lambda: reactor.stop() *)
 | ANoop (tok : nat)
 | ATry (tok : nat) (other : bool)   (* a delayed call of the function's that tries a re-entrant run *)
-| ARunFunction (T : time) (f : fn). (* the callWhenRunning hook of Spinner.run *)
+| ARunFunction (T : time) (f : fn)  (* the callWhenRunning hook of Spinner.run *)
+| AHook (j : nat) (h : hook).       (* the j-th start-up hook registered before run() *)
 
 (* tokens under which calls / selectables are reported (ran, junk) *)
 Definition tok_timeout := 0.
@@ -51,10 +56,11 @@ Definition tok_fire := 1.
 Definition tok_stop := 2.
 Definition tok_extra (i : nat) := 10 + i.
 Definition tok_sel (j : nat) := 100 + j.
+Definition tok_hook (j : nat) := 200 + j.   (* the delayed call scheduled by the j-th start-up hook *)
 Definition tok_of (a : action) : nat :=
   match a with
   | ATimeout => tok_timeout | AFire _ => tok_fire | AStopReq => tok_stop | ANoop t => t | ATry t _ => t
-  | ARunFunction _ _ => tok_timeout
+  | ARunFunction _ _ => tok_timeout | AHook _ _ => tok_timeout
   end.
 
 (* ---- process signal table: signal number -> handler id (0 = SIG_DFL); later entries shadow ---- *)
@@ -176,7 +182,7 @@ Definition exec_call (inner : world -> res value exc * world) (c : dcall action)
   | AStopReq => reactor_stop (log_ran tok_stop w)
   | ANoop t => log_ran t w
   | ATry t o => try_reenter inner o (log_ran t w)
-  | ARunFunction _ _ => w
+  | ARunFunction _ _ | AHook _ _ => w
   end.
 
 (* ---- the user's function, called through maybeDeferred from run_function (316-319) ---- *)
@@ -209,7 +215,16 @@ Definition run_function (inner : world -> res value exc * world) (f : fn) (w : w
 Definition exec_hook (inner : world -> res value exc * world) (a : action) (w : world) : world :=
   match a with
   | ARunFunction _ f => run_function inner f w
-  | _ => exec_call inner (mkCall 0 0 a) w
+  | AHook _ HStop => reactor_stop w                              (* whatever reactor.stop is at that moment *)
+  | AHook j (HSched d) => later d (ANoop (tok_hook j)) w
+  | _ => w
+  end.
+
+(* somebody registers start-up hooks before run() is entered *)
+Fixpoint reg_hooks (j : nat) (hs : list hook) (w : world) : world :=
+  match hs with
+  | [] => w
+  | h :: r => reg_hooks (S j) r (set_r (call_when_running (AHook j h) (w_r w)) w)
   end.
 
 (* ---- signals, 262-273 ---- *)
@@ -261,7 +276,7 @@ Definition run_body inner (iters : nat) (batch : bool) (T : time) (f : fn) (w : 
       let w := set_stop SFake w in
       let w := set_r (call_when_running (ARunFunction T f) (w_r w)) w in
       let w := set_sp (sp_set_spinning true (w_sp w)) w in
-      let fuel := length (queue (w_r w)) + length (f_extras f) + 4 in
+      let fuel := length (queue (w_r w)) + length (hooks (w_r w)) + length (f_extras f) + 4 in
       let '(e, w) := reactor_run_w inner batch fuel w in
       (* finally *)
       let w := set_stop real w in
